@@ -78,7 +78,11 @@ LeadEmpty == {<<DOT, <<>>>>, <<<<120>>, DOTDOT, <<>>>>, <<<<>>>>}
 LongSegLists == {PatternPath(k, n) : k \in 1..(Len(Patterns) - 2), n \in {16, 17, 18, 33}}
                 \cup {pre \o PatternPath(k, n) : pre \in LeadEmpty, k \in {1, 5}, n \in {15, 16, 17}}
                 \* > 512 bytes of normalized segments (ten 60-byte ones); ~30 s of TLC time: thorough tier only
-                \cup (IF MaxSegs = 0 THEN {PatternPath(Len(Patterns) - 1, 20), PatternPath(Len(Patterns), 15)} ELSE {})
+                \cup (IF MaxSegs = 0 THEN {PatternPath(Len(Patterns) - 1, 20), PatternPath(Len(Patterns), 15),
+                                           \* more than 512 bytes that cancel out to ONE empty segment ("/B/B/.../../../")
+                                           [i \in 1..21 |-> IF i <= 10 THEN Big ELSE IF i <= 20 THEN DOTDOT ELSE <<>>],
+                                           [i \in 1..22 |-> IF i <= 10 THEN Big ELSE IF i <= 20 THEN DOTDOT ELSE IF i = 21 THEN <<>> ELSE <<97>>]}
+                      ELSE {})
 
 Init == abs \in BOOLEAN /\ segs = <<>> /\ done = TRUE /\ PrintT(ToJson(Case(Join(abs, <<>>))))
 \* two steps, so that the long paths are spread over TLC's workers (the successors of one
